@@ -14,10 +14,15 @@ length) of the modelled fragment; hypotheses are explicit decidable predicates:
 * `InRange lines raw`  — every diagnostic points into the file; `CleanCodes raw` — code names are identifiers;
 * `AddIgnoresOK st`    — all of the above, and ¬ `D16_twoCodesOneLine`, ¬ `D16_ignoreAboveLineOne`.
 
-The stream of diagnostics is an input (assumption A1, see Core/Fixes.lean); "the tree is unchanged" is
-stated as "the non-comment lines are unchanged" (assumption A2: comments are not tokens — it fails exactly
-where a physical line starts inside a string literal or after a backslash: classes `D16_insideString`,
-`D16_afterBackslash`, decided by the line lexer of Spec/FixSpec.lean, see the examples at the end).
+The stream of diagnostics is an input (assumption A1, see Core/Fixes.lean).  "The tree is unchanged" is
+stated twice: as "the non-comment lines are unchanged" (`add_ignores_preserves_code`), and on the line lexer of
+Spec/FixSpec.lean as "the lines that reach the token stream, with their lexer states, are unchanged"
+(`add_ignores_preserves_tokens_partial`); the second fails exactly where a physical line starts inside a
+string literal or after a backslash (classes `D16_insideString`, `D16_afterBackslash`).  That equal traces
+mean equal CPython token streams is assumption A2, validated per line against CPython by the harness.
+The classes `D16_sharedLine`, `D16_emptyBlock`, `D16_elifHeader`, `D16_fstringConversion` concern Python's
+grammar and the text of real fixes, which are not modelled: they are decided by the driver from facts the
+harness reads off CPython's `ast`/`tokenize`, and no theorem speaks about them (search only).
 -/
 namespace Pya.C16
 
